@@ -331,7 +331,7 @@ pub fn scenarios(prop: &str, tier: &str) -> Vec<Scenario> {
         // of validity queries per motion, or any spacing derived from the step instead of L, shows
         // only here. Reduced alphabet (start + the 4-letter sub-alphabet) because one motion check
         // costs thousands of queries.
-        if prop == "C03" && kit != "SE2" && kit != "SE3" {
+        if prop == "C03" && kit != "SE2" && kit != "SE3" && (thorough || kit != "SO3") {
             let mut letters: Vec<usize> = vec![b.start];
             letters.extend(b.sub4.iter().map(|&i| i as usize));
             let alphabet: Vec<crate::kit::V> = letters.iter().map(|&i| b.alphabet[i].clone()).collect();
